@@ -40,7 +40,7 @@ def step (st : St) (line : String) : St × String :=
         match setReward st.s es with
         | .ok s' => ({ st with s := s' }, "ok")
         | _ => (st, "err")
-  | ["fund", d, a] =>
+  | ["fund", d, a] | ["fundraw", d, a] =>   -- fundraw: same balance effect, no auth account object (not part of the model state)
     match unhex d, parseInt? a with
     | some db, some a =>
       let d := bytesToString db
